@@ -18,7 +18,8 @@ _factorize (interpreted from its current source) — symbolic outer size n (a mu
 inner size), both imperfect modes:
    perfect    member(x) <=> inner | x and x | n
    imperfect  for every multiple s of inner up to n the smallest shape giving ceil(n/s) tiles is a
-              member, n is a member, every member is <= n
+              member, n is a member (one tile is always achievable), every member is <= n — for EVERY
+              outer size n, dividing or not (a non-dividing inner tile is what imperfect mode is for)
 ceil(a/b) with a symbolic divisor is linearised over the divisor's bounded domain.  A concrete sweep
 of the same function against brute force remains as validation (coarseness 1, inner | outer)."""
 from __future__ import annotations
@@ -140,7 +141,9 @@ def shard(payload):
         imperfect, inner = arg
         f = MT.get_possible_factor_sizes
         n = z3.Int("n")
-        dom = [n >= 1, n <= N, n % inner == 0]
+        # perfect: the inner size divides the outer size (the property's domain); imperfect: ANY outer size
+        # (a non-dividing inner tile is the normal case of imperfect factorisation)
+        dom = [n >= 1, n <= N] + ([n % inner == 0] if not imperfect else [])
         solver = z3.Solver()
         solver.add(dom)
         it = I.Interp(src_of(f), {"np": I.NP, "math": I.MATH, "range": I._range}, solver)
@@ -175,7 +178,7 @@ def shard(payload):
                     wrong.append(z3.And(I.zbool(g), v > n))
             wrong.append(z3.Not(res.member(n)))
             label = (f"get_possible_factor_sizes(n, True, {inner}): for every multiple s of {inner} up to n the smallest shape with ceil(n/s) tiles is present, "
-                     f"n itself is present, all members <= n, n in 1..{N} (multiples of {inner})")
+                     f"n itself is present, all members <= n, n in 1..{N} (whether or not {inner} divides n)")
         s.push()
         s.add(z3.Not(res.member(n)) if not imperfect else res.member(n + 1))      # seeded wrong expectations must differ in verdict
         rv = z3_check(s, st, 120000)
@@ -194,7 +197,7 @@ def shard(payload):
                 exp = [x for x in range(1, nv + 1) if x % inner == 0 and nv % x == 0]
                 bad = got != exp
             else:
-                exp = sorted({-(-nv // (-(-nv // sv))) for sv in range(inner, nv + 1, inner)} | {nv})
+                exp = sorted({-(-nv // (-(-nv // sv))) for sv in range(inner, nv + 1, inner)} | {nv})     # inner need not divide nv
                 bad = any(x > nv for x in got) or any(x not in got for x in exp)
             st.replays += 1
             if not bad:
